@@ -115,6 +115,40 @@ theorem afb_zero_adjoint (w0 w1 x g0 g1 : List R) (hL : 2 ≤ w0.length) (hw : w
       · rw [getN_vadd _ _ _ (by omega)]
     rw [hget, hw]; ring
 
+/-- `SFB1D.backward` in mode `zero` — `afb1d(dy, g0, g1)` with the synthesis filters used as they are —
+is the adjoint of `SFB1D.forward` (two transposed convolutions cropped by `L−2`):
+`⟨sfb(lo, hi), dy⟩ = ⟨lo, dlow⟩ + ⟨hi, dhigh⟩` for every `lo, hi, dy` of matching lengths. -/
+theorem sfb_zero_adjoint (g0 g1 lo hi dy : List R) (hL : 2 ≤ g0.length) (hg : g1.length = g0.length)
+    (hn : 1 ≤ lo.length) (hh : hi.length = lo.length)
+    (hfit : g0.length ≤ 2 * lo.length + 1)
+    (hdy : dy.length = 2 * lo.length + 2 - g0.length) :
+    ∃ y dlow dhigh, sfb1dCh .zero g0 g1 lo hi = some y ∧ afb1dOne .zero g0 dy = some dlow ∧
+      afb1dOne .zero g1 dy = some dhigh ∧
+      ∑ i ∈ range dy.length, getN y i * getN dy i
+        = (∑ k ∈ range lo.length, getN lo k * getN dlow k) + (∑ k ∈ range hi.length, getN hi k * getN dhigh k) := by
+  have hN : 1 ≤ dy.length := by omega
+  have hK0 : lo.length = dwtCoeffLen dy.length g0.length := by unfold dwtCoeffLen; omega
+  have hK1 : hi.length = dwtCoeffLen dy.length g1.length := by unfold dwtCoeffLen; omega
+  have e0 := afb_zero_adjoint_one g0 dy lo hL hN hK0
+  have e1 := afb_zero_adjoint_one g1 dy hi (by omega) hN hK1
+  have hguard : ¬ (g0.length < 2 ∨ g1.length ≠ g0.length ∨ lo.length < 1 ∨ hi.length ≠ lo.length) := by omega
+  have hfit' : ¬ (2 * (lo.length - 1) + g0.length < 2 * (g0.length - 2) + 1) := by omega
+  refine ⟨vadd (convT g0 lo (g0.length - 2)) (convT g1 hi (g0.length - 2)), _, _,
+    by simp only [sfb1dCh, hguard, hfit', if_false], afb1dOne_zero_val g0 dy hL hN,
+    afb1dOne_zero_val g1 dy (by omega) hN, ?_⟩
+  have hlen : dy.length ≤ (convT g0 lo (g0.length - 2)).length := by simp [convT, convTFull]; omega
+  have lhs : ∑ i ∈ range dy.length, getN (vadd (convT g0 lo (g0.length - 2)) (convT g1 hi (g0.length - 2))) i * getN dy i
+      = (∑ i ∈ range dy.length, getN dy i * getN (convT g0 lo (g0.length - 2)) i)
+        + (∑ i ∈ range dy.length, getN dy i * getN (convT g1 hi (g1.length - 2)) i) := by
+    rw [← Finset.sum_add_distrib]
+    apply Finset.sum_congr rfl; intro i hi'
+    have : i < dy.length := by simpa using hi'
+    rw [getN_vadd _ _ _ (by omega), hg]; ring
+  rw [lhs, ← e0, ← e1]
+  congr 1
+  · apply Finset.sum_congr rfl; intro k _; ring
+  · apply Finset.sum_congr rfl; intro k _; ring
+
 /-- non-vacuity: Haar-like integer bank on a length-5 signal meets every hypothesis -/
 example : (2 ≤ ([1, 1] : List Int).length) ∧ (1 ≤ ([3, 1, 4, 1, 5] : List Int).length) ∧
     ([7, 8, 9] : List Int).length = dwtCoeffLen 5 2 := by decide
